@@ -476,7 +476,8 @@ def _expected_jac(case, lay):
                 ov[k] = UPoly([indep[n][k], F(1)])
                 up = lay.evaluate(ind, None, one=lambda c: upc(c), override={(tgt, n): ov})
             if method == 'cs':
-                hcol = F(CS_STEP)
+                st = (col['opts'] or {}).get('step')
+                hcol = F(CS_STEP) if st is None else unrat(st)
                 for ir, (on, ok) in enumerate(rows):
                     J[ir][jc] += up[on][ok].coef(1)
                 continue
@@ -635,6 +636,8 @@ def fd_kwargs(method, opts):
         for k in ('step', 'minimum_step'):
             if opts.get(k) is not None:
                 kw[k] = float(unrat(opts[k]))
+    elif opts.get('step') is not None:
+        kw['step'] = float(unrat(opts['step']))          # complex step size (either sign)
     return kw
 
 
@@ -661,11 +664,10 @@ def build(case, colored):
             if colored:
                 o = case['color_opts']
                 coloring = dict(wrt='*', method=method, show_summary=False, show_sparsity=False)
-                if method == 'fd':
-                    if o.get('form') is not None:
-                        coloring['form'] = o['form']
-                    if o.get('step') is not None:
-                        coloring['step'] = float(unrat(o['step']))
+                if method == 'fd' and o.get('form') is not None:
+                    coloring['form'] = o['form']
+                if o.get('step') is not None:
+                    coloring['step'] = float(unrat(o['step']))
         seq = None
         if coloring is not None and case.get('color_wrt') is not None:
             # partial coloring limited to some inputs; the other inputs are declared before or
@@ -684,10 +686,10 @@ def build(case, colored):
         if method == 'fd':
             if o.get('form') is not None:
                 kw['form'] = o['form']
-            if o.get('step') is not None:
-                kw['step'] = float(unrat(o['step']))
             if o.get('step_calc') is not None:
                 kw['step_calc'] = o['step_calc']
+        if o.get('step') is not None:
+            kw['step'] = float(unrat(o['step']))
         parent.approx_totals(**kw)
         if colored and case.get('color_mode') == 'driver':
             # the documented way: a total coloring declared on the driver, computed by run_driver
@@ -924,7 +926,10 @@ def gen_poly(rng, dep, maxdeg, nterms):
 
 def gen_opts(rng, method, exact_bias=True):
     if method == 'cs':
-        return {}
+        # complex step size: default, or an explicit one of either sign (f'(x) = Im f(x+ih)/h holds
+        # for h < 0 as well)
+        return {'step': rng.choice([None, None, rat(F(1e-30)), rat(F(-1e-30)), rat(F(-1e-25)),
+                                    rat(F(1e-20)), rat(F(-1e-40))])}
     o = {'form': rng.choice(FORMS + [None])}
     r = rng.random()
     if r < 0.70:
@@ -1075,12 +1080,15 @@ class C12(Property):
 
     # -- generator ----------------------------------------------------------------------------------
     def cases(self, rng, tier):
-        n = 90 if tier == 'quick' else 7000
+        n = 80 if tier == 'quick' else 7000
         # targeted family first: a partial coloring limited to some inputs, the other inputs
         # approximated by the same method with different options, both declaration orders
         for i in range(14 if tier == 'quick' else 300):
             yield self.gen_partial_coloring(rng, color_first=(i % 2 == 0),
                                             method='cs' if i % 7 == 6 else 'fd')
+        # targeted family: negative steps (cs: Im f(x+ih)/h keeps its sign; fd: mirrored stencil)
+        for i in range(10 if tier == 'quick' else 200):
+            yield self.gen_negative_step(rng, i)
         # targeted family: approximated totals with design-variable / response indices (subsets,
         # reordered, negative), with and without a total coloring declared on the driver
         for i in range(12 if tier == 'quick' else 300):
@@ -1118,8 +1126,8 @@ class C12(Property):
             polys.append(gen_poly(rng, dep, maxdeg, rng.randint(1, 3)))
         return {'name': name, 'ins': ins, 'outs': outs, 'polys': polys, 'guard': None}
 
-    def gen_partials(self, rng, colored=False, guard=False):
-        method = 'cs' if rng.random() < 0.25 else 'fd'
+    def gen_partials(self, rng, colored=False, guard=False, method=None):
+        method = method or ('cs' if rng.random() < 0.25 else 'fd')
         nvars = rng.choice([1, 2, 2, 3])
         ins = []
         ivc = []
@@ -1164,6 +1172,11 @@ class C12(Property):
             comp['guard'] = [j, rat(base + F(1, 2 ** 40))]
             if method == 'cs':
                 comp['guard'] = [j, '0', 'du']       # fails on a complex-perturbed input
+                # (the guard looks at the sign of the imaginary part: one complex step for all
+                # inputs, as the model takes a single step per approximation)
+                first = next(iter(decl.values()))
+                for n in decl:
+                    decl[n] = dict(first)
             case['calls'] = ['totals']
         elif rng.random() < 0.5:
             case['calls'].append('check_partials')
@@ -1178,8 +1191,8 @@ class C12(Property):
                 case['calls'].append('check_totals')
         return case
 
-    def gen_totals(self, rng, kind, colored=False, guard=False):
-        method = 'cs' if rng.random() < 0.25 else 'fd'
+    def gen_totals(self, rng, kind, colored=False, guard=False, method=None):
+        method = method or ('cs' if rng.random() < 0.25 else 'fd')
         approx = gen_opts(rng, method)
         approx.pop('minimum_step', None)
         if colored and method == 'fd':
@@ -1244,6 +1257,49 @@ class C12(Property):
             if method == 'cs':
                 comps[ci]['guard'] = [j, '0', 'du']
             case['calls'] = ['totals']
+        return case
+
+    def gen_negative_step(self, rng, i):
+        """the ordinary families with every step forced negative (`step_calc='abs'`)"""
+        def neg(o, method):
+            o = dict(o)
+            if method == 'cs':
+                o['step'] = rng.choice([rat(F(-1e-30)), rat(F(-1e-25)), rat(F(-1e-20)),
+                                        rat(F(-1e-40))])
+            else:
+                st = o.get('step')
+                o['step'] = rat(-abs(unrat(st))) if st is not None else rat(-F(1, 2 ** rng.randint(2, 7)))
+                o['step_calc'] = rng.choice(['abs', None])
+            return o
+        k = i % 5
+        method = 'cs' if k in (0, 2, 3) else 'fd'
+        if k in (0, 1):
+            case = self.gen_partials(rng, method=method)
+        elif k == 2:
+            case = self.gen_totals(rng, rng.choice(['totals', 'semi']), method=method)
+        elif k == 3:
+            case = self.gen_partials(rng, colored=True, method=method)
+        else:
+            method = rng.choice(['cs', 'fd'])
+            case = self.gen_totals(rng, 'totals', colored=True, method=method)
+        if case['kind'] == 'partials':
+            if case.get('colored'):
+                o = neg(next(iter(case['decl'].values())), method)
+                case['decl'] = {n: dict(o) for n in case['decl']}
+                case['color_opts'] = {'form': o.get('form'), 'step': o['step']}
+            else:
+                case['decl'] = {n: neg(o, method) for n, o in case['decl'].items()}
+            if 'check_opts' not in case and not case.get('colored'):
+                case['calls'] = ['totals', 'totals', 'linearize', 'check_partials', 'check_totals']
+                case['check_opts'] = {'method': method}
+            if 'check_opts' in case:
+                m2 = case['check_opts']['method']
+                o2 = neg(gen_opts(rng, m2), m2)
+                o2['method'] = m2
+                case['check_opts'] = o2
+        else:
+            case['approx'] = neg(case['approx'], method)
+        case['neg_step'] = True
         return case
 
     def gen_indices(self, rng, size, allow_none=True):
@@ -1317,11 +1373,13 @@ class C12(Property):
         fc = rng.choice(FORMS)
         kc = rng.randint(2, 6)
         copt = {'form': fc, 'step': rat(F(1, 2 ** kc)), 'step_calc': None, 'minimum_step': None}
+        cs_pool = [None, rat(F(1e-30)), rat(F(-1e-30)), rat(F(-1e-25)), rat(F(1e-20))]
+        cs_c = rng.choice(cs_pool)
         decl = {}
         ivc = []
         for n, sz in ins:
             if [n, sz] in cvars:
-                decl[n] = dict(copt) if method == 'fd' else {}
+                decl[n] = dict(copt) if method == 'fd' else {'step': cs_c}
                 ivc.append([n, rats(gen_values(rng, sz, 'any'))])
             else:
                 if method == 'fd':
@@ -1335,7 +1393,7 @@ class C12(Property):
                     style = {'rel_element': 'pow2', 'rel_legacy': 'pyth', 'rel': 'avgpow2',
                              'rel_avg': 'avgpow2'}.get(sc, 'any')
                 else:
-                    decl[n] = {}
+                    decl[n] = {'step': rng.choice([x for x in cs_pool if x != cs_c])}
                     style = 'any'
                 ivc.append([n, rats(gen_values(rng, sz, style))])
         # local flat positions
@@ -1365,7 +1423,8 @@ class C12(Property):
         comp = {'name': 'c', 'ins': ins, 'outs': [['y', nout]], 'polys': polys, 'guard': None}
         return {'kind': 'partials', 'method': method, 'ivc': ivc, 'comps': [comp], 'decl': decl,
                 'colored': True, 'color_wrt': [n for n, _ in cvars], 'color_first': bool(color_first),
-                'color_opts': {'form': copt['form'], 'step': copt['step']} if method == 'fd' else {},
+                'color_opts': {'form': copt['form'], 'step': copt['step']} if method == 'fd'
+                else {'step': cs_c},
                 'calls': ['totals', 'totals', 'linearize']}
 
     def gen_bad(self, rng):
@@ -1606,6 +1665,15 @@ class C12(Property):
             b.append('check_partials:%s' % case['check_opts']['method'])
             if 'check_totals' in case['calls']:
                 b.append('check_totals:%s' % case['check_opts']['method'])
+        if case['kind'] != 'bad':
+            optsl = list(case['decl'].values()) if case['kind'] == 'partials' else [case['approx']]
+            sg = {('neg' if unrat(o['step']) < 0 else 'pos') if o and o.get('step') is not None
+                  else 'default' for o in optsl}
+            for x in sorted(sg):
+                b.append('%s_step=%s' % (case['method'], x))
+            co = case.get('check_opts')
+            if co and co.get('step') is not None and unrat(co['step']) < 0:
+                b.append('check_%s_step=neg' % co['method'])
         if case.get('objective'):
             b.append('totals_indices:%s' % ('driver_coloring' if case.get('color_mode') == 'driver'
                                             else 'uncolored'))
@@ -1691,13 +1759,24 @@ class C12(Property):
         return {'form': opts.get('form') or 'forward', 'step': step, 'step_calc': sc,
                 'minimum_step': mn, 'wrt_val': rats(xvar), 'nrm': nrm, 'loc': loc}
 
+    def cs_step_of(self, case):
+        """the complex step handed to the model (its result does not depend on it: C12_cs_exact)"""
+        if case['kind'] in ('partials', 'bad'):
+            opts = [o for o in case['decl'].values()]
+        else:
+            opts = [case['approx']]
+        for o in opts:
+            if o and o.get('step') is not None and case['method'] == 'cs':
+                return o['step']
+        return rat(F(CS_STEP))
+
     def model_requests(self, case, impl):
         lay = Layout(case)
         if 'error' in impl and case['kind'] != 'bad':
             return []
         indep = {n: list(v) for n, v in lay.ivc}
         base_req = dict(self.sys_request(case, lay))
-        base_req.update({'op': 'approx', 'method': case['method'], 'cs_step': rat(F(CS_STEP)),
+        base_req.update({'op': 'approx', 'method': case['method'], 'cs_step': self.cs_step_of(case),
                          'restore_on_raise': bool(self.restore_on_raise),
                          'total': case['kind'] in ('totals', 'semi')})
         reqs = []
@@ -1746,6 +1825,7 @@ class C12(Property):
             o = case['check_opts']
             r = dict(base_req)
             r['method'] = o['method']
+            r['cs_step'] = o['step'] if o.get('step') is not None else rat(F(CS_STEP))
             r['jobs'] = jobs_for(lambda col: o, cols)
             reqs.append(r)
             plan.append(('check', None))
@@ -1753,7 +1833,7 @@ class C12(Property):
             tv = totals_view(case)
             lay2 = Layout(tv)
             r = dict(self.sys_request(tv, lay2))
-            r.update({'op': 'approx', 'method': tv['method'], 'cs_step': rat(F(CS_STEP)),
+            r.update({'op': 'approx', 'method': tv['method'], 'cs_step': self.cs_step_of(tv),
                       'restore_on_raise': bool(self.restore_on_raise), 'total': True})
             r['jobs'] = jobs_for(lambda col: col['opts'], wrt_columns(tv, lay2), tv, lay2, indep)
             reqs.append(r)
